@@ -60,6 +60,9 @@ VARIANTS = {
     "asan":  ["-O1", "-g", "-DNDEBUG", "-fsanitize=address,undefined", "-fno-sanitize=shift,vla-bound",
               "-fno-sanitize-recover=all", "-fno-omit-frame-pointer"],
     "tsan":  ["-O1", "-g", "-DNDEBUG", "-fsanitize=thread"],
+    # AddressSanitizer without UBSan (for properties whose inputs necessarily
+    # pass negative 32-bit payloads through rtosc_argument's "byte << 24")
+    "asan-noub": ["-O1", "-g", "-DNDEBUG", "-fsanitize=address", "-fno-omit-frame-pointer"],
     # GCC's post-optimisation call graph (C03)
     "cgraph": ["-O2", "-g", "-DNDEBUG", "-fcallgraph-info"],
 }
@@ -249,7 +252,7 @@ def check_proofs(pid, log, clean=False):
         if c.startswith("Closed"):
             res["assumptions"][t] = []
         else:
-            res["assumptions"][t] = sorted(set(re.findall(r"(?m)^([A-Za-z_][\w.']*)\s*:", c)))
+            res["assumptions"][t] = sorted(set(re.findall(r"(?m)^([A-Za-z_][\w.']*)\s*:", c)) - {"Axioms"})
     res["secs"] = round(time.time() - t0, 1)
     return res
 
